@@ -73,8 +73,11 @@ def execute(prop, drv, batches, which, res, nontriv, max_parallel=None):
     # weight-aware parallelism: PaRSEC workers spin, so keep the number of busy threads near the core count
     batches = sorted(batches, key=lambda b: -b[0]["threads"] * b[0]["ranks"])
     par = max_parallel or max(2, min(8, core.NCPU // 2))
+    import time as _t
+    _t0 = _t.time()
     with ThreadPoolExecutor(max_workers=par) as ex:
         results = list(ex.map(one, enumerate(batches)))
+    core.log("%s: %d batches (%d scripts) in %.0fs" % (prop, len(batches), sum(len(b[1]) for b in batches), _t.time() - _t0))
     hashes = getattr(res, "_e6_hashes", set())
     res._e6_hashes = hashes
     allouts = []
@@ -125,23 +128,37 @@ def execute(prop, drv, batches, which, res, nontriv, max_parallel=None):
             res.violations.append(core.Violation(msg, replay_text=text))
         else:
             lab("unconfirmed_" + o.status)
+    if bad:
+        core.log("%s: %d failing case(s) re-run alone in %.0fs" % (prop, seen, _t.time() - _t0))
     inc = [o for o in allouts if o.status == "inconclusive"]
     if inc:
         lab("inconclusive_cases", len(inc))
-        res.coverage["inconclusive_examples"] = [m for o in inc[:3] for m in o.msgs[:1]]
+        res.coverage["inconclusive_examples"] = ["%s threads=%d ranks=%d: %s" % (o.cfg["sched"], o.cfg["threads"], o.cfg["ranks"], o.msgs[0][:200])
+                                                 for o in inc[:4] if o.msgs]
+    keep = os.environ.get("VF_E6_KEEP")
+    if keep:
+        os.makedirs(keep, exist_ok=True)
+        for n, o in enumerate(o for o in allouts if o.status != "ok"):
+            with open(os.path.join(keep, "%s_%s_%03d.txt" % (prop, o.status, n)), "w") as f:
+                f.write(g.file_text(o.cfg, [o.s], "; ".join(o.msgs)[:400]))
     return allouts
 
 
 def regress(prop, res, which):
     """Dedicated replays of the excluded known findings: reported as KNOWN-FINDING lines, never as violations."""
+    import time as _t
+    _t0 = _t.time()
     st = {}
-    for p in sorted(glob.glob(os.path.join(core.VERIF, "corpus", prop, "regress", "*.txt"))):
-        ok, msg = g.replay_file(p, which, tries=1)
+    files = sorted(glob.glob(os.path.join(core.VERIF, "corpus", prop, "regress", "*.txt")))
+    with ThreadPoolExecutor(max_workers=4) as ex:
+        outs = list(ex.map(lambda p: g.replay_file(p, which, tries=1), files))
+    for p, (ok, msg) in zip(files, outs):
         st[os.path.basename(p)] = "passes now" if ok else "still fails"
         if not ok:
             first = msg.splitlines()[0] if msg else ""
             res.known.append("%s still reproduces (excluded from generation): %s" % (os.path.basename(p), first[:160]))
     res.coverage["regress"] = st
+    core.log("%s: %d regress replays in %.0fs" % (prop, len(st), _t.time() - _t0))
 
 
 def run(tier, seed, res):
@@ -158,7 +175,7 @@ def run(tier, seed, res):
         "W,R,W on one tile in one task is documented unsupported and never generated",
     ]
     if quick:
-        batches, stats = plan(tier, seed, "c03", 600, 25, 40, 5)
+        batches, stats = plan(tier, seed, "c03", 480, 20, 30, 5)
     else:
         batches, stats = plan(tier, seed, "c03", 20000, 50, 1500, 10, ranks=(2, 4))
     execute(PROP, drv, batches, WHICH, res, lambda s, f, o: nontrivial(s, f))
